@@ -54,6 +54,17 @@ def mutations(spec: dict) -> t.Iterator[t.Tuple[str, str, dict]]:
             sp = json.loads(json.dumps(spec))
             sp['nodes'][n]['defect'] = d
             yield n, d, sp
+    # a defective class that reaches the DAG through build_node() (a reusable template without the node base / with an
+    # un-annotated or un-rebound parameter)
+    for n, nd in spec['nodes'].items():
+        if n == spec['input'] or nd.get('rec') or not any(p[1] != 'plain' for p in nd['params']) \
+                or any(p[0] == 'additional_data' for p in nd['params']):
+            continue
+        for d in ('no_base', 'unannotated', 'generic_unbound'):
+            sp = json.loads(json.dumps(spec))
+            sp['nodes'][n]['generic'] = True
+            sp['nodes'][n]['defect'] = d
+            yield f'{n} (build_node-derived)', d, sp
     # the defect on ONE reference of a shared node: a defective twin declaration with the same node id (an instance of the
     # class, or a redeclaration under the same name) referenced from one consumer while the other consumers name the valid class
     for n in spec['nodes']:
@@ -100,7 +111,7 @@ def work(arg: tuple) -> dict:
     codegen.unload(spec)
     for n, d, sp in mutations(spec):
         out['builds'] += 1
-        pos = positions(spec, n) if n in spec['nodes'] else ['one-reference-of-shared-node']
+        pos = positions(spec, n) if n in spec['nodes'] else (['build_node-derived'] if 'build_node' in n else ['one-reference-of-shared-node'])
         for p in pos:
             k = f'{d}@{p}'
             out['positions'][k] = out['positions'].get(k, 0) + 1
@@ -113,7 +124,8 @@ def work(arg: tuple) -> dict:
         want = expected_errors(d)
         if got is None:
             out['viol'].append(dict(symptom='defect-accepted', detail=f'{d} at {n} ({"/".join(pos)}): build_dag returned a DAG',
-                                    case=dict(spec=sp, defect=d, node=n), key=S.spec_hash(sp), tags=tags + [f'defect:{d}'],
+                                    case=dict(spec=sp, defect=d, node=n), key=S.spec_hash(sp),
+                                    tags=tags + [f'defect:{d}'] + (['via:build_node'] if 'build_node' in n else []),
                                     source=codegen.render(sp)))
         elif type(got).__name__ not in want:
             out['viol'].append(dict(symptom='wrong-build-error',
